@@ -199,13 +199,17 @@ def rule_r2(ctx) -> RuleResult:
             if isinstance(n, ast.Assign) and isinstance(v, ast.BinOp) and isinstance(v.op, ast.Add) \
                     and isinstance(v.right, ast.Name) and v.right.id == "title" and isinstance(v.left, ast.Name):
                 # prefix + title: injective for a given namespace; must be under namespace_id != 0
-                guard = _enclosing_if(ctx, "core", n)
-                if guard is not None and "namespace_id != 0" in unparse(guard.test).replace("  ", " "):
+                if any(_implies_nonzero_ns(g.test) for g in _enclosing_ifs(ctx, "core", n)):
                     rr.ok("core.Wtp.add_page", txt, {"rewrite": txt, "kind": "namespace prefix added outside namespace 0"})
                 else:
                     rr.bad(Finding("C12.R2", CORE, "core.Wtp.add_page", txt, "the namespace prefix is added without the `namespace_id != 0` guard", n.lineno))
             else:
                 guard = _enclosing_if(ctx, "core", n)
+                # `title = title.removeprefix(P)` is `if title.startswith(P): title = title[len(P):]`: one construct, one key
+                if isinstance(v, ast.Call) and isinstance(v.func, ast.Attribute) and v.func.attr == "removeprefix" and unparse(v.func.value) == "title" \
+                        and len(v.args) == 1 and isinstance(v.args[0], ast.Constant) and isinstance(v.args[0].value, str):
+                    txt = "title = title[{}:]".format(len(v.args[0].value))
+                    guard = ast.If(test=ast.parse("title.startswith({!r})".format(v.args[0].value), mode="eval").body, body=[], orelse=[])
                 rr.bad(Finding("C12.R2", CORE, "core.Wtp.add_page", txt,
                                "the stored title is shortened/rewritten{}; two different dump titles can be stored under one key "
                                "(one page lost, the other overwritten)".format(
@@ -226,6 +230,33 @@ def rule_r2(ctx) -> RuleResult:
         else:
             rr.bad(Finding("C12.R2", CORE, "core.Wtp.add_page", txt, "`{}` is rewritten before the INSERT".format(t.id), n.lineno))
     return rr
+
+
+def _enclosing_ifs(ctx, modname, node) -> list:
+    """the `if` statements in whose body (not else) the node sits, innermost first"""
+    parents = ctx.index.mod(modname).parents
+    out = []
+    n = node
+    while n in parents:
+        p = parents[n]
+        if isinstance(p, ast.If) and n in p.body:
+            out.append(p)
+        if isinstance(p, (ast.FunctionDef, ast.AsyncFunctionDef)):
+            break
+        n = p
+    return out
+
+
+def _implies_nonzero_ns(test) -> bool:
+    """`namespace_id != 0`, `namespace_id` (truthy), `namespace_id > 0`, or a conjunction containing one of them"""
+    if isinstance(test, ast.BoolOp) and isinstance(test.op, ast.And):
+        return any(_implies_nonzero_ns(v) for v in test.values)
+    if isinstance(test, ast.Name) and test.id == "namespace_id":
+        return True
+    if isinstance(test, ast.Compare) and len(test.ops) == 1 and unparse(test.left) == "namespace_id" \
+            and isinstance(test.comparators[0], ast.Constant) and test.comparators[0].value == 0 and isinstance(test.ops[0], (ast.NotEq, ast.Gt)):
+        return True
+    return False
 
 
 def _enclosing_if(ctx, modname, node):
